@@ -245,6 +245,31 @@ class Lang:
             return {pos} if found else set()
         raise AnalysisError(f"regex construct {op} not modelled")
 
+    def first_end(self, s, pos):
+        """end of the match the engine would report at ``pos`` (priority order), or None"""
+        return next(self._ordered(list(self.tree), 0, s, pos, len(s)), None)
+
+    def sub(self, repl, s):
+        """re.sub(pattern, repl, s) for a constant replacement without group references"""
+        if '\\' in repl:
+            raise AnalysisError("replacement with group references is not modelled")
+        out, i, n = [], 0, len(s)
+        while i <= n:
+            e = self.first_end(s, i)
+            if e is None or (e == i and i == n and out and False):
+                if i < n:
+                    out.append(s[i])
+                i += 1
+                continue
+            out.append(repl)
+            if e == i:
+                if i < n:
+                    out.append(s[i])
+                i += 1
+            else:
+                i = e
+        return ''.join(out)
+
     # -- priority-ordered (backtracking) semantics, needed only to know WHICH
     # match a possessive quantifier / atomic group commits to ------------
     def _ordered(self, items, idx, s, pos, endpos):
@@ -1507,3 +1532,70 @@ def sample_words(pattern, flags, n, rng, max_len=60):
             i = rng.randrange(len(word))
             out.append(word[:i] + word[i + 1:])
     return out[:n * 2]
+
+
+def enumerate_words(sub, flags=0, cap=400, rep_extra=1):
+    """Some members of the language of the sub-pattern ``sub`` (a parsed
+    sequence): every alternative is followed, a repeat is taken lo and
+    lo+rep_extra times (never beyond hi), a character class contributes a
+    representative or two.  Every returned word IS a member (as far as
+    consuming structure goes - zero-width tests are ignored); the list is not
+    complete.  Used to look for witnesses, never to prove absence."""
+    def chars(op, av):
+        if op is C.LITERAL:
+            return [chr(av)]
+        if op is C.ANY:
+            return ['x']
+        cands = ' .xN2neswNESW/½¼-,\n' + ''.join(chr(c) for c in range(33, 127))
+        out = []
+        for ch in cands:
+            if char_matches(op, av, ch, flags) and ch not in out:
+                out.append(ch)
+            if len(out) >= 2:
+                break
+        return out
+
+    def seq(items):
+        words = ['']
+        for it in items:
+            nxt = []
+            for tail in item(it):
+                for w in words:
+                    nxt.append(w + tail)
+                    if len(nxt) > cap:
+                        break
+                if len(nxt) > cap:
+                    break
+            words = nxt or words[:0]
+            if not words:
+                return []
+        return words
+
+    def item(it):
+        op, av = it
+        if op in SINGLE:
+            return chars(op, av)
+        if op is C.SUBPATTERN:
+            return seq(list(av[3]))
+        if op is C.BRANCH:
+            out = []
+            for alt in av[1]:
+                out += seq(list(alt))
+            return out[:cap]
+        if op in REPEATS:
+            lo, hi, body = av
+            counts = sorted({lo, min(lo + rep_extra, hi if hi != MAXREPEAT else lo + rep_extra)})
+            bodyw = seq(list(body))[:6]
+            out = []
+            for k in counts:
+                ws = ['']
+                for _ in range(k):
+                    ws = [w + b for w in ws for b in bodyw][:cap]
+                out += ws
+            return out[:cap]
+        if op in (C.AT, C.ASSERT, C.ASSERT_NOT):
+            return ['']
+        if op is ATOMIC and op is not None:
+            return seq(list(av))
+        raise AnalysisError(f"regex construct {op} not enumerated")
+    return list(dict.fromkeys(seq(list(sub))))[:cap]
